@@ -8,7 +8,7 @@ FAM = "matrix"
 
 def produce(c, binhash):
     quick = c.tier == "quick"
-    states, steps = (5, 16) if quick else (60, 40)
+    states, steps = (8, 16) if quick else (150, 40)
 
     def producer(d):
         wd = os.path.join(d, "wd")
